@@ -189,6 +189,11 @@ pub fn run_interp(c: &Case, bufs: &Bufs, budget: u64, trace_cap: usize) -> Inter
     out
 }
 
+/// compare only the bytes whose value is within the claim
+pub fn masked_eq(want: &[u8], mask: &[bool], got: &[u8]) -> bool {
+    want.len() == got.len() && want.iter().zip(got.iter()).zip(mask.iter()).all(|((w, g), m)| !*m || w == g)
+}
+
 pub struct RefRun {
     pub outcome: Outcome,
     pub steps: u64,
@@ -199,8 +204,11 @@ pub struct RefRun {
     pub trace: Vec<u32>,
     pub pkt_after: Vec<u8>,
     pub pkt_clean: bool,
+    /// per byte: true if the byte's value is within the claim (not undefined / address dependent)
+    pub pkt_mask: Vec<bool>,
     pub mbuff_after: Vec<u8>,
     pub mbuff_clean: bool,
+    pub mbuff_mask: Vec<bool>,
     pub helper_log: Vec<crate::refvm::HelperCall>,
     pub executed: [u32; 256],
     pub br_taken: [u32; 256],
@@ -233,7 +241,12 @@ pub fn run_ref_alt(c: &Case, bufs: &Bufs, ir: &InterpRun, budget: u64, trace_cap
         Kind::Mbuff => {
             let (ma, ml) = bufs.mbuff_raw();
             if ml > 0 {
-                regions.push(Region::new("mbuff", ma as u64, &bufs.mbuff_bytes()));
+                let mut r = Region::new("mbuff", ma as u64, &bufs.mbuff_bytes());
+                if c.mbuff_ptrs && ml >= 16 && pl > 0 {
+                    r.set_ptr_slot(0, 1);
+                    r.set_ptr_slot(8, 1);
+                }
+                regions.push(r);
                 mb_idx = Some(regions.len() - 1);
                 r1 = ma as u64;
             }
@@ -256,6 +269,9 @@ pub fn run_ref_alt(c: &Case, bufs: &Bufs, ir: &InterpRun, budget: u64, trace_cap
                     r.taint[c.offs.0 + k] = 2;
                     r.taint[c.offs.1 + k] = 2;
                 }
+            } else {
+                r.set_ptr_slot(c.offs.0, 1);
+                r.set_ptr_slot(c.offs.1, 1);
             }
             regions.push(r);
             mb_idx = Some(regions.len() - 1);
@@ -282,14 +298,16 @@ pub fn run_ref_alt(c: &Case, bufs: &Bufs, ir: &InterpRun, budget: u64, trace_cap
         alt_zext_unsigned_imm: alt,
     });
     let outcome = vm.run(budget);
-    let (pkt_after, pkt_clean) = match pkt_idx {
-        Some(i) => (vm.regions[i].data.clone(), vm.region_clean(i)),
-        None => (Vec::new(), true),
+    let (pkt_after, pkt_mask) = match pkt_idx {
+        Some(i) => (vm.regions[i].data.clone(), vm.regions[i].taint.iter().map(|t| *t == 0).collect()),
+        None => (Vec::new(), Vec::new()),
     };
-    let (mbuff_after, mbuff_clean) = match (c.kind, mb_idx) {
-        (Kind::Mbuff, Some(i)) => (vm.regions[i].data.clone(), vm.region_clean(i)),
-        _ => (Vec::new(), true),
+    let (mbuff_after, mbuff_mask) = match (c.kind, mb_idx) {
+        (Kind::Mbuff, Some(i)) => (vm.regions[i].data.clone(), vm.regions[i].taint.iter().map(|t| *t == 0).collect()),
+        _ => (Vec::new(), Vec::new()),
     };
+    let pkt_clean = true;
+    let mbuff_clean = true;
     RefRun {
         outcome,
         steps: vm.steps,
@@ -300,8 +318,10 @@ pub fn run_ref_alt(c: &Case, bufs: &Bufs, ir: &InterpRun, budget: u64, trace_cap
         trace: std::mem::take(&mut vm.trace),
         pkt_after,
         pkt_clean,
+        pkt_mask,
         mbuff_after,
         mbuff_clean,
+        mbuff_mask,
         helper_log: std::mem::take(&mut vm.helper_log),
         executed: vm.executed,
         br_taken: vm.br_taken,
@@ -385,8 +405,17 @@ impl ChildRec {
     }
 }
 
+/// Executable memory for the no_std JIT (rbpf built without `std` needs caller-supplied memory).
+#[cfg(not(any(feature = "std", feature = "stdlite")))]
+pub fn exec_memory(len: usize) -> &'static mut [u8] {
+    unsafe {
+        let p = libc::mmap(std::ptr::null_mut(), len, libc::PROT_READ | libc::PROT_WRITE | libc::PROT_EXEC, libc::MAP_PRIVATE | libc::MAP_ANONYMOUS, -1, 0) as *mut u8;
+        assert!(p as isize != -1, "mmap rwx failed");
+        std::slice::from_raw_parts_mut(p, len)
+    }
+}
+
 /// Body executed inside the child for one case: compile with `engine`, execute, write record.
-#[cfg(feature = "std")]
 pub fn child_run_case(c: &Case, bufs: &Bufs, engine: Engine, family: Family, out: &mut Vec<u8>) {
     bufs.reset(c);
     hlp::log_reset();
@@ -407,9 +436,18 @@ pub fn child_run_case(c: &Case, bufs: &Bufs, engine: Engine, family: Family, out
             return;
         }
     };
+    #[cfg(not(any(feature = "std", feature = "stdlite")))]
+    if engine == Engine::Jit {
+        // generous: 64 bytes of code per instruction slot plus prologue/epilogue
+        let need = (c.prog.len() / 8 * 64 + 8192 + 4095) & !4095;
+        let _ = vm.set_jit_exec_memory(exec_memory(need));
+    }
     let comp = sys::catch(|| match engine {
         Engine::Jit => vm.jit_compile(),
+        #[cfg(feature = "std")]
         Engine::Cranelift => vm.cl_compile(),
+        #[cfg(not(feature = "std"))]
+        Engine::Cranelift => Err("cranelift not built in this variant".to_string()),
         Engine::Interp => Ok(()),
     });
     match comp {
@@ -430,7 +468,10 @@ pub fn child_run_case(c: &Case, bufs: &Bufs, engine: Engine, family: Family, out
     let r = sys::catch(|| unsafe {
         match engine {
             Engine::Jit => vm.exec_jit(bufs.pkt_raw(), bufs.mbuff_raw()),
+            #[cfg(feature = "std")]
             Engine::Cranelift => vm.exec_cl(bufs.pkt_raw(), bufs.mbuff_raw()),
+            #[cfg(not(feature = "std"))]
+            Engine::Cranelift => Err("cranelift not built in this variant".to_string()),
             Engine::Interp => vm.exec(bufs.pkt_raw(), bufs.mbuff_raw()),
         }
     });
@@ -462,7 +503,6 @@ pub enum EngineEnd {
 }
 
 /// Run all `cases` on a compiled engine in forked children.
-#[cfg(feature = "std")]
 pub fn run_compiled(cases: &[(&Case, &Bufs)], engine: Engine, family: Family) -> Vec<EngineEnd> {
     run_compiled_lim(cases, engine, family, 30, 40)
 }
@@ -470,7 +510,6 @@ pub fn run_compiled(cases: &[(&Case, &Bufs)], engine: Engine, family: Family) ->
 /// `cpu_batch`: CPU seconds for the whole batch; `cpu_alone`: for the re-run of a case that was
 /// running when the batch limit hit (a case that exhausts that too has diverged: the interpreter
 /// finished the same program within the step budget, i.e. in milliseconds).
-#[cfg(feature = "std")]
 pub fn run_compiled_lim(cases: &[(&Case, &Bufs)], engine: Engine, family: Family, cpu_batch: u64, cpu_alone: u64) -> Vec<EngineEnd> {
     let ends = sys::run_batch(cases.len(), cpu_batch, cpu_alone, |i, out| {
         let (c, b) = cases[i];
